@@ -56,8 +56,13 @@ ob("bit_stale_write", ["C05", "C13"], entry="h_bit_stale_write", mode="bounded",
 ob("bit_stale_read", ["C05", "C13"], entry="h_bit_stale_read", mode="bounded",
    bound="2-call history: Hstartbitread (4-byte element), Hbitread(1..7 bits), Hendbitaccess, Hbitread(same id)", unwind=18, **BIT)
 
+# ----------------------------------------------------------------------------- cnbit.c
+ob("cnbit_init", "C05", entry="h_cnbit_init", enforce="HCIcnbit_init", unit="cnbit_u.c", file="hdf/src/cnbit.c",
+   mode="proved-finite", bound="nt_size in {1,2,4,8} (loops run nt_size <= 8 times), every mask_off/mask_len/fill_one",
+   unwind=9, cex_unwind=9, objbits=10)
+
 prop("C05",
-     residual="skipping-Huffman, deflate (zlib external), n-bit coder, HCPcrle_seek restart, hcomp.c dispatch/header "
+     residual="skipping-Huffman, deflate (zlib external), n-bit coder encode/decode (only HCIcnbit_init's mask tables are proved), HCPcrle_seek restart, hcomp.c dispatch/header "
               "codec, reopen of compressed elements; composition of the unbounded encode and decode proofs into a "
               "round trip is by the shared PK_* packet semantics of the stubs (machine-checked only up to 6 bytes)",
      assumptions=[
